@@ -10,6 +10,9 @@
 -/
 import Gzx.Proofs.DMTotalAB
 import Gzx.Proofs.DMMidstream
+import Gzx.Proofs.DMRoundTripGen
+import Gzx.Properties.C08
+import Gzx.Model.RS
 namespace Gzx.Properties.C02
 open Gzx Gzx.DMHighLevel
 
@@ -162,27 +165,98 @@ theorem dm_encoder_invariant_c40_midstream (syms : List SymbolInfo) (text : Bool
   let ⟨hI, hp, _, _⟩ := c40HandleEOD_midstream hB hb k h3 hmore h
   ⟨hI, hp⟩
 
+/-- `dm_encoder_invariant` (X12, whole call): for every look-ahead oracle that satisfies the end-of-message
+    condition `LaX12Safe` (it does not keep or enter X12 for a final triplet that is followed by exactly one
+    extended character), a whole call of the X12 encoder started right after the latch 238 — triplets written
+    as they complete, look-ahead exit, rewind of the incomplete triplet and `x12HandleEOD` — either fails, or
+    ends with the invariant (unlatch written), or in a tail state: the symbol is exactly used up, or has one
+    codeword left for the one remaining character, which takes one ASCII codeword. -/
+theorem dm_encoder_invariant_x12 (T : Tables) (syms : List SymbolInfo) (la : LookAhead) (c c' : Ctx) (a : Acc)
+    (hL : LatchedM T X12 238 la c a) (hle : c.pos ≤ c.total) (hnew : c.newEnc = none)
+    (hsafe : LaX12Safe la c) (h : x12Encode syms la c = .ok c') :
+    ∃ a', a'.trailer = a.trailer ∧ c.pos ≤ c'.pos ∧ c'.newEnc = some ASCII ∧
+      (Inv T c' a' ∨ ∃ k, k ≤ 1 ∧ Tail T c' a' k) := by
+  obtain ⟨a', h1, _, _, _, h5, _, h7, h8⟩ := x12_step_post hL hle hnew hsafe h
+  exact ⟨a', h1, h5, h7, h8⟩
+
+/-- `dm_encoder_invariant` (C40 / Text, whole call): for EVERY look-ahead oracle, a whole call of the C40 or
+    Text encoder started right after the latch — buffering, look-ahead exit, the (repaired) end-of-message
+    backtracking and all branches of `c40HandleEOD` (two values left: shift-1 pad; one value left and one
+    codeword free: last character to ASCII; complete triplets; with or without unlatch) — either fails, or
+    ends with the invariant, or in a tail state (symbol exactly used up / one codeword left for the last
+    character, which is not an extended one). -/
+theorem dm_encoder_invariant_c40 (text : Bool) (syms : List SymbolInfo) (la : LookAhead) (c c' : Ctx) (a : Acc)
+    (hbytes : ∀ x ∈ c.msg, x < 256)
+    (hL : LatchedM refTables (if text then TEXT else C40) (if text then 239 else 230) la c a)
+    (hle : c.pos ≤ c.total) (hm : c.hasMore = true) (hnew : c.newEnc = none)
+    (h : c40Encode syms la text c = .ok c') :
+    ∃ a', a'.trailer = a.trailer ∧ c.pos ≤ c'.pos ∧ c'.newEnc = some ASCII ∧
+      (Inv refTables c' a' ∨ ∃ k, k ≤ 1 ∧ Tail refTables c' a' k) := by
+  obtain ⟨a', h1, _, _, _, h5, _, h7, h8⟩ := c40_step_post hbytes hL hle hm hnew h
+  exact ⟨a', h1, h5, h7, h8⟩
+
+/-- in a tail state the ASCII encoder (oracle staying in ASCII) uses up the free codewords: the tail shrinks -/
+theorem dm_encoder_invariant_tail (T : Tables) (la : LookAhead) (c c' : Ctx) (a : Acc) (k : Nat)
+    (hbytes : ∀ x ∈ c.msg, x < 256) (hT : Tail T c a k) (hm : c.hasMore = true) (hle : c.pos ≤ c.total)
+    (htr : TrailerOK c) (hla : la c.msg c.pos ASCII = ASCII) (h : asciiEncode la c = .ok c') :
+    ∃ a' k', Tail T c' a' k' ∧ k' < k ∧ c.pos < c'.pos := by
+  obtain ⟨a', k', h1, h2, _, _, h5, _, _⟩ := ascii_step_tail hbytes hT hm hle htr hla h
+  exact ⟨a', k', h1, h2, h5⟩
+
 /-! ## round trip -/
 
 /-
-  Full statement (kept visible; NOT proved in general):
+  Full statement (kept visible; NOT proved, and FALSE for an arbitrary oracle — see `dm_roundtrip_needs_x12_tail`):
 
     theorem dm_roundtrip (syms) (la : LookAhead) (msg) (cfg) (cw) (hb : ∀ x ∈ msg, x < 256) :
         encodeHL syms la msg cfg = .ok cw → decodeText refTables cw = .ok msg
 
-  Proved part (`dm_roundtrip_ascii_base256_partial`): every encoding that uses ASCII and Base-256 encodation
-  only, i.e. for every look-ahead oracle that proposes nothing but these two modes: digit pairs, ASCII
-  characters, upper shift for 128..255, macro 05/06 header + trailer, Base-256 runs with 1- and 2-byte length
-  fields and the exact-fill case (length 0), any number of switches between the two modes, the final
-  `UpdateSymbolInfo` and the 129 / 253-state padding — for every symbol table and every shape/min/max hint.
-  Missing cases: whole calls of the C40, Text, X12 and EDIFACT encoders.  For these modes the theorems above
-  cover the characters and groups (codec lemmas), whole decoder segments of complete triplets closed by an
-  unlatch (`c40_segment_inv`, `x12_segment_inv`) and the mid-stream branch of `c40HandleEOD`; NOT covered are
-  the encoder loops with the look-ahead, the end-of-message branches of `c40HandleEOD` (pad value / single
-  value left / no unlatch at exact fit), the backtracking, `x12HandleEOD`'s rewind, `edifactHandleEOD`
-  (rest-in-ASCII, no-unlatch shortcut).  For whole messages these four modes rest on the correspondence
-  suites (exact codewords model vs. code) and on the oracle on the real code.
+  Proved part (`dm_roundtrip_five_modes_partial`): every encoding that uses ASCII, C40, Text, X12 and Base-256
+  encodation in any combination, i.e. every look-ahead oracle that never proposes EDIFACT from ASCII, under two
+  explicit conditions on the oracle at the very end of the message:
+    * `LaTailAscii`: with one character left it stays in ASCII (needed when a C40/Text/X12 segment was closed
+      without unlatch because exactly one codeword is free for that character);
+    * `LaX12Tail`: it neither keeps nor enters X12 for a last triplet followed by exactly one extended
+      character (otherwise `x12HandleEOD` omits the unlatch although that character needs two codewords).
+  Both hold for `HighLevelEncoder_lookAheadTest` on every input tried (they are what the `dm-la` suite and the
+  oracle on the real code exercise) but are not proved for the float look-ahead.
+  Missing: the EDIFACT encoder as a whole call.  Its groups with an explicit unlatch are read back only if at
+  least three codewords follow the last complete quadruple in the FINAL symbol, which depends on later symbol
+  re-selection (`ResetSymbolInfo`); that global argument is not formalised.  EDIFACT is covered by the codec
+  lemmas (`edifact_char_inv`, `edifact_pack_inv`), by exact-codeword correspondence and by the oracle.
 -/
+
+/-- `dm_roundtrip`, five encoders (ASCII, C40, Text, X12, Base 256): for every symbol table, every hint
+    configuration, every message of bytes and every look-ahead oracle with the three stated properties, the
+    codewords `encodeHL` returns (padding included) decode to exactly the message. -/
+theorem dm_roundtrip_five_modes_partial (syms : List SymbolInfo) (la : LookAhead) (msg : List Nat) (cfg : Cfg)
+    (cw : List Nat) (hNoE : LaNoEdifact la)
+    (hTA : LaTailAscii la msg (initCtx msg cfg).total) (hXT : LaX12Tail la msg (initCtx msg cfg).total)
+    (hb : ∀ x ∈ msg, x < 256) (h : encodeHL syms la msg cfg = .ok cw) :
+    decodeText refTables cw = .ok msg :=
+  roundtrip_gen syms la msg cfg cw hNoE hTA hXT hb h
+
+/-- table used by the examples: symbols of 4, 8 and 1558 data codewords -/
+def exSyms : List SymbolInfo := [⟨false, 4, 5, 8, 8, 1⟩, ⟨false, 8, 7, 10, 10, 1⟩, ⟨false, 1558, 620, 22, 22, 36⟩]
+
+/-- non-vacuity: an oracle that latches C40 at the start ("ABCDEFG": two triplets, unlatch, 'G' in ASCII) -/
+example : encodeHL exSyms (fun _ pos mode => if mode = ASCII then (if pos = 0 then C40 else ASCII) else mode)
+    [65, 66, 67, 68, 69, 70, 71] {} = .ok [230, 89, 233, 109, 36, 254, 72, 129] := by decide
+example : decodeText refTables [230, 89, 233, 109, 36, 254, 72, 129] = .ok [65, 66, 67, 68, 69, 70, 71] := by decide
+/-- ... and one that latches X12: two triplets fill all but two codewords, unlatch, rest in ASCII -/
+example : encodeHL exSyms (fun _ pos mode => if mode = ASCII then (if pos = 0 then X12 else ASCII) else mode)
+    [65, 42, 67, 13, 69, 70, 71, 72] {} = .ok [238, 87, 185, 2, 228, 254, 72, 73] := by decide
+example : decodeText refTables [238, 87, 185, 2, 228, 254, 72, 73] = .ok [65, 42, 67, 13, 69, 70, 71, 72] := by decide
+
+/-- the X12 end-of-message condition is necessary: this oracle enters X12 for "***" followed by 'é' and leaves
+    it right before 'é' with one codeword free; `x12HandleEOD` writes no unlatch, 'é' takes two codewords, the
+    symbol grows and the decoder reads on in X12 — the codewords decode to other text. -/
+theorem dm_roundtrip_needs_x12_tail :
+    ∃ (la : LookAhead) (cw : List Nat), encodeHL exSyms la [42, 42, 42, 233] {} = .ok cw ∧
+      decodeText refTables cw ≠ .ok [42, 42, 42, 233] :=
+  ⟨fun _ pos mode => if mode = ASCII then (if pos = 0 then X12 else ASCII)
+      else if mode = X12 then (if pos = 3 then ASCII else X12) else ASCII,
+   [238, 6, 106, 235, 106, 129, 161, 56], by decide, by decide⟩
 
 /-- `dm_roundtrip`, ASCII + Base-256 part. -/
 theorem dm_roundtrip_ascii_base256_partial (T : Tables) (syms : List SymbolInfo) (la : LookAhead)
@@ -198,14 +272,74 @@ theorem dm_roundtrip_ascii_partial (T : Tables) (syms : List SymbolInfo) (la : L
     decodeText T cw = .ok msg :=
   roundtrip_ascii T syms la hla msg cfg cw hb h
 
+/-! ## whole symbol: composition with the low-level models of C08 -/
+
+/-- `dm_symbol_roundtrip_partial`: text → `encodeHL` → reference symbol of C08 (reference ECC, interleaving,
+    Annex-F placement, finder/clock framing; any of the 30 ECC-200 sizes whose capacity equals the number of
+    codewords) → low-level decoder model of C08 (version by dimensions, data-region extraction, codeword
+    reading, de-interleaving) → Reed-Solomon decoding of every block → `decodeText` = text.
+    Hypotheses: the oracle conditions of `dm_roundtrip_five_modes_partial`; `hRS`: the Reed-Solomon decoder
+    model (C04) returns each reference block (data ++ ECC) unchanged — i.e. the reference ECC words are code
+    words of the decoder's code (C04 proves `rs_decode_clean` for words with zero syndromes; that the
+    reference ECC of C08 has zero syndromes is the link not proved here).  That the model's codewords are
+    bytes is proved (`encodeHL_bytes`). -/
+theorem dm_symbol_roundtrip_partial (syms : List SymbolInfo) (la : LookAhead) (msg : List Nat) (cfg : Cfg)
+    (cw : List Nat) (hNoE : LaNoEdifact la)
+    (hTA : LaTailAscii la msg (initCtx msg cfg).total) (hXT : LaX12Tail la msg (initCtx msg cfg).total)
+    (hb : ∀ x ∈ msg, x < 256) (h : encodeHL syms la msg cfg = .ok cw)
+    (p : DMRef.Sym × Nat) (hp : p ∈ DMRef.table7.zipIdx) (hn : cw.length = p.1.nData)
+    (hRS : ∀ b ∈ List.range p.1.blocks,
+      RS.decode GF.dataMatrix256 (DMRef.blockData p.1 cw b ++ DMRef.blockEcc p.1 cw b) p.1.blkErr
+        = .ok (DMRef.blockData p.1 cw b ++ DMRef.blockEcc p.1 cw b)) :
+    ∃ v grid raw blocks,
+      DMDec.newBitMatrixParser DMDec.versions ⟨p.1.cols, p.1.rows, (DMRef.symbolBits p.1 cw).flatten.toArray⟩
+        = .ok (v, grid) ∧
+      DMDec.readCodewords v grid = .ok raw ∧
+      DMDec.getDataBlocks raw v = .ok blocks ∧
+      (∀ nb ∈ blocks, RS.decode GF.dataMatrix256 nb.2 p.1.blkErr = .ok nb.2) ∧
+      DMDec.resultBytes blocks = .ok cw ∧
+      decodeText refTables cw = .ok msg := by
+  have hcwb := encodeHL_bytes syms la msg cfg cw hNoE hTA hXT hb h
+  have hchain := Gzx.Properties.C08.decoder_inverts_reference_symbol p hp cw hn hcwb
+  simp only at hchain
+  obtain ⟨h1, h2, h3, h4⟩ := hchain
+  refine ⟨_, _, _, _, h1, h2, h3, ?_, h4, roundtrip_gen syms la msg cfg cw hNoE hTA hXT hb h⟩
+  intro nb hnb
+  simp only [List.mem_map] at hnb
+  obtain ⟨b, hbm, rfl⟩ := hnb
+  exact hRS b hbm
+
+/-- non-vacuity of `hRS`: for "A12" = [66, 142, 129] in the 10x10 symbol the reference block is
+    [66, 142, 129, 170, 115, 225, 118, 63] and the Reed-Solomon decoder model returns it unchanged -/
+example : RS.decode GF.dataMatrix256 [66, 142, 129, 170, 115, 225, 118, 63] 5
+    = .ok [66, 142, 129, 170, 115, 225, 118, 63] := by decide +kernel
+
 /-! ## termination -/
 
 /-
-  Full statement (NOT provable for an arbitrary oracle — an oracle may latch back and forth for ever — and not
-  proved for the float look-ahead `laFloat`; for the real code termination is watchdog-backed):
+  Full statement (FALSE for an arbitrary oracle, see `dm_terminates_fails_for_some_oracle`; not proved for the
+  float look-ahead `laFloat`; for the real code termination is watchdog-backed):
 
     theorem dm_terminates (syms) (msg) (cfg) : encodeHL syms laFloat msg cfg ≠ .error .fuel
+
+  Progress per encoder call (all proved above / in Proofs):
+    ASCII data step            position strictly increases            (`dm_encoder_invariant_ascii`)
+    ASCII latch                position unchanged, mode switches once (`ascii_latch_gen`)
+    Base 256                   position strictly increases            (`dm_encoder_invariant_base256`)
+    X12                        position never decreases; +3 per complete triplet, +0 if fewer than three
+                               characters could be taken              (`dm_encoder_invariant_x12`)
+    C40 / Text                 position never decreases; +0 if the end-of-message backtracking removes every
+                               character it had taken                 (`dm_encoder_invariant_c40`)
+  Hence a latch followed by a C40/Text/X12 call may consume nothing, and an oracle that asks for the same
+  latch again at the same position loops for ever.
 -/
+
+/-- an oracle that always answers "C40" from ASCII: for the message "é" the C40 encoder takes 'é' (four
+    values), backtracks it, writes latch + unlatch, and the dispatch loop never advances: out of fuel. -/
+theorem dm_terminates_fails_for_some_oracle :
+    ∃ la : LookAhead, encodeHL exSyms la [233] {} = .error .fuel :=
+  ⟨fun _ _ mode => if mode = ASCII then C40 else mode, by decide⟩
+
 
 /-- `dm_terminates`, ASCII + Base-256 part: for every oracle proposing only these two modes the dispatch loop
     finishes within its fuel `4·|msg| + 8` and nothing panics: the result is a codeword list or a
